@@ -28,14 +28,20 @@ RULE = ('tables of 2-6 columns x 20-300 rows: 1-3 base columns (normal / uniform
         'fitted with np.linalg.cond wrapped by a recorder; the driver receives the real normal scores and the '
         'recorded cond value.  A case is distinct by (configuration, table digest) and non-trivial when the table '
         'has at least one derived (dependent / constant / near-constant) column')
-PARTIAL = ['finite: a statement about binary64 values; tie + search only',
-           'unit diagonal is proved for every non-constant SCORE column (pearson_diag_one) and for a raw column '
-           'whose score map separates its values (diag_one_raw_partial); for arbitrary fitted marginals the raw-column '
-           'reading is false (diag_one_raw_counterexample; finding fit:diag-nonconstant-column:scores-constant)',
-           'sampling and density evaluation still work after regularisation: scipy/numpy multivariate normal; '
-           'search only (not raising, no NaN)',
+PARTIAL = ['finite: proved on any carrier (incl. Float) only GIVEN the IEEE facts bundled in Pearson.UnitFinite '
+           '(Props/C02b.entry_unit_form / entry_finite); for binary64 itself tie + search only',
+           'unit diagonal is proved for every non-constant SCORE column (pearson_diag_one), exactly characterised for '
+           'raw columns (C02b.diag_raw_exact / diag_one_raw_iff; sufficient conditions diag_one_raw_partial, '
+           'C02b.diag_one_raw, diag_one_raw_of_separating, diag_one_raw_of_straddle); for arbitrary fitted marginals the '
+           'raw-column reading is false (diag_one_raw_counterexample; finding '
+           'fit:diag-nonconstant-column:scores-constant)',
+           'sampling and density evaluation still work after regularisation: over the reals the ridged matrix has '
+           'det > 0, a Cholesky factor and a defined textbook density (C02b.ridge_density_defined); that scipy/numpy '
+           'multivariate normal do not raise / return no NaN is search only',
            'np.linalg.cond is an external symbol: the ridge decision is proved as a function of its value; that a '
-           'numerically singular matrix has cond > 2^52 is numpy behaviour, observed in the tie']
+           'numerically singular matrix has cond > 2^52 is numpy behaviour, observed in the tie',
+           'storage dtype of the training table: the theorems are about real / binary64 scores; narrow dtypes '
+           '(float32, float16, int8 ...) are covered by tie + search only (findings fit:storage-dtype-dependent:*)']
 ASSUMPTIONS = ['real-number semantics of binary64 formulas (DESIGN 3.1)',
                'pandas DataFrame.corr() (method=pearson) = libalgos.nancorr = Model.pearson; validated bit-for-bit '
                'every run (obligation corr:pandas-corr)',
@@ -1068,7 +1074,8 @@ def search(ctx, deep):
             names, cols, kinds = gen_table(rng, nr, quick_rows=not deep)
             if rng.random() < 0.3:           # narrow / mixed storage dtypes
                 cols = [cast_column(c, dt) for c, dt in zip(cols, gen_dtypes(rng, len(cols)))]
-                ctx.count('search:dtype:' + '+'.join(sorted(set(dtype_names(cols)))))
+                for dt in sorted(set(dtype_names(cols))):
+                    ctx.count('search:dtype:' + dt)
             allow_default = ndefault < (24 if deep else 1) and len(names) <= 3
             spec = gen_config(rng, names, allow_default)
             if spec[0] == 'default' or (spec[0] == 'dict' and len(spec[1]) < len(names)):
